@@ -168,7 +168,7 @@ def canon_atom(e: ast.AST, render) -> Optional[Tuple[str, bool]]:
         if isinstance(op, (ast.Is, ast.Eq, ast.IsNot, ast.NotEq)):
             neg = isinstance(op, (ast.IsNot, ast.NotEq))
             if isinstance(r, ast.Constant) and r.value is None:
-                m = match("$a._Task__wbs", l)
+                m = match("$a._Task__wbs", l) or match("$a.wbs", l)
                 if m:
                     return f"wbsnone({render(m['a'])})", flip != neg
                 return f"none({render(l)})", flip != neg
